@@ -243,6 +243,23 @@ def r_every_entry_walked(r, prog):
     r.floor(1)
 
 
+def r_paths_reach_resolution_as_written(r, prog):
+    """The paths given on the command line reach resolve_files_from as they were written: the options module has no function that rewrites an
+    argument before it is stored, except the generator-specification parser. (Which file a spelling denotes is for the operating system to say
+    - canonicalize() in FilePath::try_create - not for a textual tidy-up: `link/../x` is not `x` when `link` is a symbolic link.)"""
+    fns = sorted(k for k, f in prog.fns.items() if k.startswith('slicec::slice_options::') and '{closure' not in k and not k.startswith('<') and not f.generated
+                 and (f.span.file or '').endswith('slice_options.rs') and not re.search(r'::(augment_args|augment_args_for_update|from_arg_matches|from_arg_matches_mut|update_from_arg_matches|update_from_arg_matches_mut|group_id|command|command_for_update|value_variants|to_possible_value|fmt|default|clone|eq)$', k))
+    known = {'slicec::slice_options::plugin_parser'}
+    extra = [k for k in fns if k not in known]
+    if 'slicec::slice_options::plugin_parser' not in fns:
+        raise AnchorMissing('slice_options::plugin_parser')
+    if extra:
+        r.finding('option-value-rewritten:%s' % extra[0].rsplit('::', 1)[-1], prog.fns[extra[0]].span, 'the options module has gained %s: a value parser or helper through which command-line values pass before they are stored' % extra)
+    else:
+        r.ok('the only function of the options module through which a value passes is the generator-specification parser')
+    r.floor(1)
+
+
 def r_directory_walk_once(r, prog):
     """The walk below a reference directory follows symbolic links; it ends (and finds every file once) because every directory is
     entered at most once per walk: its canonical path is looked up in, then added to, the set of directories already walked."""
@@ -292,6 +309,9 @@ def r_unusable_paths_reported(r, prog):
         r.finding('unusable-path-dropped-silently', call[0].span, 'find_slice_files can hand a path that is neither a file nor a directory to the walk, which ignores it: such a path (a device, pipe, socket) is dropped without a diagnostic')
     r.floor(1)
 
+import decisions
+
+
 def run(ctx):
     prog = ctx.prog
     ctx.run_rule('C17.1', 'T4', 'sources first; references only if not present; read in list order; is_source from the FilePath', r_sources_before_references, prog)
@@ -299,6 +319,8 @@ def run(ctx):
     ctx.run_rule('C17.3', 'T3', 'I/O errors become diagnostics: no io::Result is discarded', r_io_errors_are_diagnostics, prog)
     ctx.run_rule('C17.4', 'T2', 'nothing is parsed after a resolution error (phase gating)', gating.r_phase_gating, prog)
     ctx.run_rule('C17.5', 'T1', 'extension filter and directory descent', r_extension_filter, prog)
+    ctx.run_rule('C17.9', 'T1', 'command-line paths are stored as written (no value parser rewrites them)', r_paths_reach_resolution_as_written, prog)
+    ctx.run_rule('C17.10', 'T2', 'every resolved file is parsed (none skipped because of another)', decisions.r_every_file_parsed, prog)
     ctx.run_rule('C17.8', 'T2', 'the directory walk hands on every entry it could read', r_every_entry_walked, prog)
     ctx.run_rule('C17.6', 'T8', 'every directory below a reference path is walked once (terminates on link cycles)', r_directory_walk_once, prog)
     ctx.run_rule('C17.7', 'T3', 'a listed path is reported or walked, never dropped', r_unusable_paths_reported, prog)
